@@ -123,6 +123,7 @@ class Check(AddCheck):
         yield from gens.merge_cases_item(n_max=nm, max_src=2, para_layouts=['between', 'trailing', 'blankids', 'noids'])
         yield from gens.merge_cases_other()
         yield from gens.merge_cases_padded()
+        yield from gens.merge_cases_special_ids()
 
     def obs(self, o):
         if 'classerr' in o:
